@@ -11,6 +11,8 @@ mod ctors;
 mod layout;
 mod mech;
 mod ptrs;
+#[cfg(feature = "cfg_default")]
+mod serdes;
 mod tok;
 mod shapes;
 mod talloc;
@@ -76,6 +78,8 @@ fn main() {
             "ptr" => ptrs::run_case(&ops),
             "cmp" => cmps::run_case(&ops),
             "ctor" => ctors::run_case(&ops),
+            #[cfg(feature = "cfg_default")]
+            "serde" => serdes::run_case(&ops),
             _ => {
                 eprintln!("unknown stream {}", stream);
                 std::process::exit(2);
